@@ -740,10 +740,7 @@ impl ParserListener for Screen {
         let count = count.unwrap_or(1);
         let default = self.default_char();
 
-        let line = self
-            .buffer
-            .get_mut(&self.cursor.y)
-            .expect("can not retrieve line");
+        let line = self.buffer.entry(self.cursor.y).or_insert_with(HashMap::new);
         for x in (self.cursor.x..self.columns + 1).rev() {
             if x + count <= self.columns {
                 let x_val = line.get(&x);
